@@ -1,8 +1,9 @@
 #!/bin/bash
 # tools/seed_eval_all.sh "<checks>" <prop> [<prop>...]   evaluates /tmp/seed_<prop>/_out/* (3 at a time)
 checks=$1; shift
+root=${SEED_ROOT:-/tmp/seed_}
 for p in "$@"; do
-  for d in /tmp/seed_$p/_out/${p}_*; do
+  for d in ${root}$p/_out/${p}_*; do
     [ -f $d/patch.diff ] || continue
     n=$(basename $d)
     /verif/tools/seed_eval.py $p $d --checks $checks > /tmp/sv_$n.json 2>&1 &
